@@ -135,19 +135,16 @@ EXPORT errno_t _ctime_s_chk(char *dest, rsize_t dmax, const time_t *timer,
     }
 
     if (unlikely(timer == NULL)) {
-        invoke_safe_str_constraint_handler("ctime_s: timer is null", NULL,
-                                           ESNULLP);
+        handle_error(dest, dmax, "ctime_s: timer is null", ESNULLP);
         return ESNULLP;
     }
     if (unlikely(*timer < 0)) {
-        invoke_safe_str_constraint_handler("ctime_s: timer is <0", NULL,
-                                           ESLEMIN);
+        handle_error(dest, dmax, "ctime_s: timer is <0", ESLEMIN);
         return ESLEMIN;
     }
     /* 32bit have a lower limit: -Werror=type-limits (long) */
     if (unlikely(*timer >= MAX_TIME_T_STR)) { /* year 10000 */
-        invoke_safe_str_constraint_handler("ctime_s: timer is too large", NULL,
-                                           ESLEMAX);
+        handle_error(dest, dmax, "ctime_s: timer is too large", ESLEMAX);
         return ESLEMAX;
     }
 
@@ -162,11 +159,12 @@ EXPORT errno_t _ctime_s_chk(char *dest, rsize_t dmax, const time_t *timer,
 #endif
             return -1;
         }
+        return EOK; /* the result is in dest already */
     } else {
         char tmp[120];
         buf = ctime_r(timer, (char *)&tmp);
         if (!buf)
-            return -1;
+            goto failed;
         len = strlen(buf);
         if (likely(len < dmax)) {
             strcpy_s(dest, dmax, buf);
@@ -181,6 +179,14 @@ EXPORT errno_t _ctime_s_chk(char *dest, rsize_t dmax, const time_t *timer,
         goto esnospc;
 #endif
     if (!buf) {
+#if defined(HAVE_CTIME_R)
+    failed:
+#endif
+#ifdef SAFECLIB_STR_NULL_SLACK
+        memset(dest, 0, dmax);
+#else
+        *dest = '\0';
+#endif
         return -1;
     }
     len = strlen(buf);
@@ -189,8 +195,7 @@ EXPORT errno_t _ctime_s_chk(char *dest, rsize_t dmax, const time_t *timer,
         strcpy_s(dest, dmax, buf);
     } else {
     esnospc:
-        invoke_safe_str_constraint_handler("ctime_s: dmax is too small", dest,
-                                           ESNOSPC);
+        handle_error(dest, dmax, "ctime_s: dmax is too small", ESNOSPC);
         return ESNOSPC;
     }
 
